@@ -353,6 +353,7 @@ def whole_input(ctx, run, rule, fn, err_variant):
     unread = 0
     unread_ret = False
     comb = 0
+    chain_bad = False
     for p in ps:
         if p.end[0] == 'return' and p.ret is not None and not agg_variant(p.ret):
             # the result built by combinators: `rest.is_empty().then_some(v).ok_or(err)` / `.then(|| v).ok_or(..)`
@@ -360,6 +361,26 @@ def whole_input(ctx, run, rule, fn, err_variant):
             if is_call(r_, 'Option::ok_or', 'Option::ok_or_else') and r_[2] and is_call(deref_all(r_[2][0]), 'bool::then_some', 'bool::then'):
                 c0 = deref_all(deref_all(r_[2][0])[2][0])
                 if is_call(c0, 'slice::is_empty') and any(s_[0] == 'downcast' and s_[2] in ('Ok', 'Continue') for s_ in subterms(c0)):
+                    comb += 1
+                    continue
+            # `grammar(input).ok().filter(|(rest, _)| rest.is_empty()).map(..).ok_or(err)`: the filter is the whole-input test; the same chain
+            # without any filter / then_some step accepts whatever the grammar left over
+            chain = [canon(s_[1]).split('::')[-1] for s_ in subterms(r_) if s_[0] == 'call']
+            grammar_call = any(s_[0] == 'call' and s_[1] in f.bodies and not s_[1].endswith(fn.split('::')[-1]) for s_ in subterms(r_))
+            if is_call(r_, 'Option::ok_or', 'Option::ok_or_else', 'Result::map', 'Result::map_err', 'Option::map') and grammar_call:
+                tests = [s_ for s_ in subterms(r_) if s_[0] == 'call' and canon(s_[1]).split('::')[-1] in ('filter', 'then_some', 'then', 'and_then', 'filter_map', 'take_if', 'is_some_and')]
+                if not tests and all(c_ in ('ok_or', 'ok_or_else', 'map', 'map_err', 'ok', 'err', 'into', 'from') or c_ in [x_.split('::')[-1] for x_ in f.bodies] or 'closure' in c_ for c_ in chain):
+                    chain_bad = True
+                    continue
+                flt = [s_ for s_ in tests if canon(s_[1]).split('::')[-1] == 'filter' and len(s_[2]) == 2 and s_[2][1][0] == 'agg' and isinstance(s_[2][1][1], tuple) and s_[2][1][1][0] == 'closure']
+                okf = False
+                for s_ in flt:
+                    cb_ = f.bodies.get(s_[2][1][1][1])
+                    if cb_ is not None:
+                        for cq in explore(cb_)[0]:
+                            if cq.end[0] == 'return' and is_call(deref_all(cq.ret), 'slice::is_empty'):
+                                okf = True
+                if okf:
                     comb += 1
                     continue
             if not is_call(r_, 'FromResidual::from_residual'):
@@ -396,7 +417,9 @@ def whole_input(ctx, run, rule, fn, err_variant):
                 unread += 1
             else:
                 bad += 1
-    if not n and comb and not unread_ret:
+    if chain_bad:
+        run.violation(rule, fn, 'whole-input', 'the result of the grammar is turned into Ok by a chain of ok / map / ok_or steps with no test of the unparsed rest: input with trailing garbage is accepted', f'{b.file}:{b.line}')
+    elif not n and comb and not unread_ret:
         run.proved(rule, fn, 'whole-input', f'the result is Ok only through rest.is_empty().then_some(..).ok_or(..) ({comb} path(s))', f'{b.file}:{b.line}')
     elif not n:
         run.undecided(rule, fn, 'whole-input', 'no return path builds Ok(..) directly in this function (the result comes from combinators or a helper this rule does not read): not decided', f'{b.file}:{b.line}')
@@ -612,6 +635,13 @@ def r09_7(ctx, run, rule='R09.7'):
     missing = [k for k in need if k not in have]
     (run.proved if not missing else run.violation)(rule, fn, 'literal-kinds', 'null, true, false, unsigned, signed, float and string literals all have an alternative' if not missing else
                                                     f'no alternative for {missing}')
+    empty_literal(ctx, run, rule)
+
+
+def empty_literal(ctx, run, rule='R09.7'):
+    """the quoted-string scanner accepts the empty literal "" (also the empty quoted name of a key path): no success path requires the
+    closing quote beyond position 1, and no helper it hands the text to fails on empty text"""
+    f = ctx.facts
     # the quoted-string scanner accepts the empty literal: no success path requires i > 1
     b = f.bodies.get('jsonpath::parser::string')
     if b is not None:
@@ -628,7 +658,7 @@ def r09_7(ctx, run, rule='R09.7'):
                         if t[0] == 'bin' and t[1] in ('Gt', 'Ge', 'Lt', 'Le') and any(s[0] == 'hav' for s in subterms(t)) and any(x[0] == 'const' and x[1] in (1, 2) for x in (t[2], t[3])) \
                                 and not any(s[0] == 'len' or is_call(s, 'slice::len') for s in subterms(t)):
                             bad = True
-        if not n:
+        if True:
             # the result is built by a helper that receives the text between the quotes (`&input[1..end]`): a helper that answers Err just
             # because that text is empty rejects the empty literal
             rejecting = None
@@ -651,11 +681,39 @@ def r09_7(ctx, run, rule='R09.7'):
                                 cs = [c for c in hq.conds if not (c[0][0] == 'discr')]
                                 if cs and all(is_call(c[0], 'slice::is_empty', 'str::is_empty') and c[2] is True and deref_all(c[0][2][0])[0] == 'init' and deref_all(c[0][2][0])[1] == i_ + 1 for c in cs):
                                     rejecting = (canon(e[1]).split('::')[-1], f"{hb.file}:{hb.line}")
+                        # or it receives the bounds (start = 1, end = position of the closing quote) and fails when end <= start: for ""
+                        # the closing quote is at position 1, so start == end
+                        ones = [i_ for i_, a_ in enumerate(e[2]) if const_of(deref_all(a_)) == 1]
+                        curs = [i_ for i_, a_ in enumerate(e[2]) if i_ not in ones and i_ + 1 <= hb.argc and str(hb.local_ty(i_ + 1).get('s')) == 'usize' and const_of(deref_all(a_)) is None]
+                        if len(ones) == 1 and curs:
+                            sp = ones[0] + 1
+                            for hq in explore(hb)[0]:
+                                if hq.end[0] != 'return' or hq.ret is None:
+                                    continue
+                                r_ = deref_all(hq.ret)
+                                if not (agg_variant(r_) and r_[1][2] in ('Err', 'None')):
+                                    continue
+                                cs = [c for c in hq.conds if c[0][0] != 'discr' and 'ovf' not in show(c[0])[:4]]
+                                if not cs:
+                                    continue
+
+                                def holds_when_equal(c):
+                                    t_ = c[0]
+                                    if t_[0] != 'bin' or t_[1] not in ('Le', 'Ge', 'Eq', 'Lt', 'Gt', 'Ne') or not isinstance(c[2], bool):
+                                        return None
+                                    a_, b_ = deref_all(t_[2]), deref_all(t_[3])
+                                    if not (a_[0] == 'init' and b_[0] == 'init' and sp in (a_[1], b_[1]) and any(k_ + 1 in (a_[1], b_[1]) and k_ + 1 != sp for k_ in curs)):
+                                        return None
+                                    v_ = {'Le': True, 'Ge': True, 'Eq': True, 'Lt': False, 'Gt': False, 'Ne': False}[t_[1]]
+                                    return v_ == c[2]
+                                hs = [holds_when_equal(c) for c in cs]
+                                if all(h is True for h in hs):
+                                    rejecting = (canon(e[1]).split('::')[-1], f"{hb.file}:{hb.line}")
             if rejecting:
-                run.violation(rule, b.path, 'empty-literal', f'the text between the quotes is handed to {rejecting[0]}(), which answers Err when that text is empty: the empty literal "" is rejected', rejecting[1])
-            else:
+                run.violation(rule, b.path, 'empty-literal', f'the text between the quotes (or its bounds) is handed to {rejecting[0]}(), which fails when that text is empty: the empty literal "" is rejected', rejecting[1])
+            elif not n:
                 run.undecided(rule, b.path, 'empty-literal', 'no path of the quoted-string scanner builds its Ok result in the function itself (moved to a helper?): acceptance of "" is not decided here', f'{b.file}:{b.line}')
-        else:
+        if n and not rejecting:
           (run.proved if n and not bad else run.violation)(rule, b.path, 'empty-literal', 'the empty string "" is accepted' if n and not bad else
                                                           'a successful return of the quoted-string scanner requires the closing quote to be beyond position 1: the empty literal "" is rejected', f'{b.file}:{b.line}')
 
